@@ -7,6 +7,15 @@ PY = "/venv/bin/python"
 
 # property id -> (design section, technique, level text, level note)
 BUILT = {
+    "C01": ("§4.1", "explicit-state breadth-first search of the product (reference model of conforming files x canonical "
+            "dump of the real Context), every transition executed on the real pipeline; nested exhaustive "
+            "enumeration of expressions/signatures/declarations/constants",
+            "All (carried state, next block) pairs reachable within the model bounds are executed on the real "
+            "Lexer/Context/Registry and must yield no Error diagnostic, status OK, no stray output; accepting "
+            "representatives are also run through main() (exit 0, `OK!`).",
+            "Trusts the conforming-program generator mc/model/norm.py (DESIGN §4.1) and the abstraction table of "
+            "mc/canon.py (merge-validated). Bounded: see evidence bounds; expressions with <= 1 (quick) / 2 "
+            "(thorough) binary operators."),
     "C11": ("§4.11", "exhaustive enumeration of the C11 6.4.4 literal grammar (bounded digit strings) x contexts against the real tokenizer",
             "Every derivation of the literal grammar within the digit bounds, in every listed context, is lexed by the real Lexer: valid literals must be one clean token, members of malformed families must carry their diagnostic.",
             "Trusts mc/model/literals.py as a faithful subset of C11 6.4.4 plus the named extensions; sandwich: what lies between valid and malformed sets is not judged."),
